@@ -7,8 +7,12 @@ import (
 	"encoding/binary"
 	"encoding/json"
 	"fmt"
+	"context"
 	"io"
+	"net"
 	"os"
+	"runtime"
+	"sync"
 	"path/filepath"
 	"sort"
 	"strings"
@@ -19,6 +23,7 @@ import (
 
 	"verifharness/internal/core"
 	"verifharness/internal/fixture"
+	"verifharness/internal/refclient"
 	rc "verifharness/internal/refcodec"
 )
 
@@ -41,7 +46,7 @@ type args struct {
 
 var allTypes = []string{"transaction", "field", "user", "account", "filenamewithinfo", "infofork", "flatfile",
 	"fileheader", "filepath", "resumedata", "newsartlist", "newsartlistdata", "newscat", "tracker", "serverrecord",
-	"time", "handshake", "transfer", "decodeint", "newspath", "filelist"}
+	"time", "handshake", "transfer", "decodeint", "newspath", "filelist", "trackeremit"}
 
 func (prop) Plan(tier string, seed int64) []core.Batch {
 	n := 120
@@ -229,6 +234,10 @@ func checkObj(o obj, r *core.Rand, em *core.Emitter, caseID string) {
 		var derr string
 		if p := core.Guard(func() { derr = o.decode() }); p != "" {
 			fail("C01/"+o.typ+"/decode-panic", fmt.Sprintf("%s: decoder panicked on reference bytes %s: %s", o.desc, hexs(o.ref), p))
+		} else if strings.HasPrefix(derr, "INCONCLUSIVE") {
+			if verdict == core.Held {
+				verdict, msg = core.Inconclusive, o.desc+": "+derr
+			}
 		} else if derr != "" {
 			fail("C01/"+o.typ+"/decode-mismatch", fmt.Sprintf("%s: decoding reference bytes %s: %s", o.desc, hexs(o.ref), derr))
 		}
@@ -520,6 +529,10 @@ func generate(t string, r *core.Rand, n int, exh bool) []obj {
 	case "filelist":
 		for i := 0; i < 12+n/10; i++ {
 			add(genFileList(r, i))
+		}
+	case "trackeremit":
+		for i := 0; i < 6+n/40; i++ {
+			add(genTrackerEmit(r, i))
 		}
 	case "newspath":
 		var cs [][]int
@@ -1229,6 +1242,109 @@ func genFileList(r *core.Rand, i int) obj {
 				}
 				if sz < 0 && string(fe.Type[:]) != "fldr" {
 					return fmt.Sprintf("folder %q listed with type %q", disk, fe.Type)
+				}
+			}
+			return ""
+		},
+	}
+}
+
+// ---- tracker registration as the server emits it ----
+
+// The periodic registration goroutine is the only place where the library itself serialises a TrackerRegistration.
+// A case configures 1-4 trackers (UDP sockets on loopback owned by the harness), starts the real goroutine and, once
+// that goroutine has gone to sleep until its next round (read off the goroutine dump: no wall-clock verdict), demands
+// that every socket holds exactly one datagram equal to the reference encoding.  The goroutines cannot be stopped
+// (they sleep 300 s and ignore their context), so the cases run one at a time and count sleepers.
+var trackerEmitMu sync.Mutex
+var trackerSleepers int
+
+func sleepingRegistrars() int {
+	buf := make([]byte, 1<<20)
+	for {
+		n := runtime.Stack(buf, true)
+		if n < len(buf) {
+			buf = buf[:n]
+			break
+		}
+		buf = make([]byte, 2*len(buf))
+	}
+	k := 0
+	for _, g := range strings.Split(string(buf), "\n\n") {
+		if strings.Contains(g, ").registerWithTrackers(") && strings.Contains(g, "time.Sleep(") {
+			k++
+		}
+	}
+	return k
+}
+
+func genTrackerEmit(r *core.Rand, i int) obj {
+	nl, dl := r.Intn(256), r.Intn(256)
+	if i%3 == 0 {
+		nl, dl = core.Pick(r, []int{0, 1, 254, 255}), core.Pick(r, []int{0, 1, 254, 255})
+	}
+	nm, ds := name(r, nl), name(r, dl)
+	port := 1 + r.Intn(65535)
+	k := 1 + i%4
+	users := r.Intn(3)
+	return obj{
+		typ:  "trackeremit",
+		desc: fmt.Sprintf("registration round with %d trackers, port=%d nameLen=%d descLen=%d users=%d #%d", k, port, nl, dl, users, i), lclass: fmt.Sprintf("k%d/%s/%s", k, lenClass(nl), lenClass(dl)), nontriv: true,
+		decode: func() string {
+			trackerEmitMu.Lock()
+			defer trackerEmitMu.Unlock()
+			srv, err := fixture.New(fixture.Options{})
+			if err != nil {
+				return "INCONCLUSIVE fixture: " + err.Error()
+			}
+			defer srv.Close()
+			for u := 0; u < users; u++ {
+				if _, err := refclient.LoginAs(srv, fmt.Sprintf("10.1.0.%d:4000", u+1), "guest", "", fmt.Sprintf("u%d", u)); err != nil {
+					return "INCONCLUSIVE login: " + err.Error()
+				}
+			}
+			srv.Quiesce(refclient.Watchdog)
+			var socks []*net.UDPConn
+			var addrs []string
+			for j := 0; j < k; j++ {
+				c, err := net.ListenUDP("udp4", &net.UDPAddr{IP: net.IPv4(127, 0, 0, 1)})
+				if err != nil {
+					return "INCONCLUSIVE udp socket: " + err.Error()
+				}
+				defer c.Close()
+				socks = append(socks, c)
+				addrs = append(addrs, c.LocalAddr().String())
+			}
+			srv.S.Config.Name, srv.S.Config.Description = string(nm), string(ds)
+			srv.S.Config.Trackers, srv.S.Config.EnableTrackerRegistration = addrs, true
+			srv.S.Port = port
+			ref := rc.TrackerRegistration(port, users, srv.S.TrackerPassID, nm, ds, nil)
+			base := sleepingRegistrars()
+			go srv.S.VerifRegisterWithTrackers(context.Background())
+			deadline := time.Now().Add(refclient.Watchdog)
+			for sleepingRegistrars() <= base {
+				if time.Now().After(deadline) {
+					return "INCONCLUSIVE the registration goroutine did not finish its round within the watchdog"
+				}
+				time.Sleep(2 * time.Millisecond)
+			}
+			// the round is over: whatever was sent sits in the sockets' buffers (loopback UDP is delivered by sendto)
+			for j, c := range socks {
+				var got [][]byte
+				for {
+					buf := make([]byte, 2048)
+					c.SetReadDeadline(time.Now().Add(30 * time.Millisecond))
+					n, _, err := c.ReadFromUDP(buf)
+					if err != nil {
+						break
+					}
+					got = append(got, buf[:n])
+				}
+				if len(got) != 1 {
+					return fmt.Sprintf("tracker %d of %d received %d datagrams in one registration round (the registering goroutine sleeps until the next round)", j+1, k, len(got))
+				}
+				if !bytes.Equal(got[0], ref) {
+					return fmt.Sprintf("tracker %d of %d received %s, reference %s", j+1, k, hexs(got[0]), hexs(ref))
 				}
 			}
 			return ""
